@@ -74,17 +74,22 @@ func (f *forExpander) run() {
 		state = state(f)
 	}
 
-	// add an extra EOF in case we end without one
-	// we don't want to block on reading from the channel
-	f.tokens <- token{tokEOF, ""}
-	f.closed = true
+	// close the channel so a reader that has not seen an EOF or error token
+	// yet gets an EOF, and the goroutine never blocks once the reader has
+	// stopped at one. The closed flag belongs to the reader.
+	close(f.tokens)
 }
 
 func (f *forExpander) NextToken() (token, error) {
 	if f.closed {
 		return token{}, fmt.Errorf("no more tokens")
 	}
-	return <-f.tokens, nil
+	tok, ok := <-f.tokens
+	if !ok {
+		f.closed = true
+		return token{tokEOF, ""}, nil
+	}
+	return tok, nil
 }
 
 func (f *forExpander) Tokens() ([]token, error) {
@@ -92,8 +97,12 @@ func (f *forExpander) Tokens() ([]token, error) {
 		return nil, fmt.Errorf("no more tokens")
 	}
 	tokens := make([]token, 0)
-	for !f.closed {
-		tok := <-f.tokens
+	for {
+		tok, ok := <-f.tokens
+		if !ok {
+			f.closed = true
+			tok = token{tokEOF, ""}
+		}
 		tokens = append(tokens, tok)
 		if tok.typ == tokEOF || tok.typ == tokError {
 			break
@@ -368,6 +377,9 @@ func forRof(f *forExpander) forStateFn {
 func forEmitConsumeStream(f *forExpander) forStateFn {
 	for f.nextToken.typ != tokEOF {
 		f.tokens <- f.nextToken
+		if f.nextToken.typ == tokError {
+			return nil
+		}
 		f.next()
 	}
 	return nil
